@@ -247,31 +247,61 @@ def rs_str(s):
 
 
 SYL = ["ge", "t", "se", "st", "a", "r", "le", "d", "-", "ta", "tu", "s"]
+SYL_MB = ["ж", "а", "б", "日", "記", "誌", "é", "ß", "😀", "😁", "x", "-"]
 
 
-def random_enum(rng, ident, n):
-    names = []
-    tries = 0
-    while len(names) < n and tries < 200:
-        tries += 1
+def random_name(rng, taken, multibyte=False):
+    syl = SYL_MB if multibyte else SYL
+    for _ in range(200):
         k = 1 + rng.below(4)
-        nm = "".join(rng.pick(SYL) for _ in range(k)).strip("-")
+        nm = "".join(rng.pick(syl) for _ in range(k)).strip("-")
         nm = re.sub(r"-+", "-", nm)
-        if not nm or nm == "help" or nm in names or not re.match(r"^[a-z][a-z-]*[a-z]$|^[a-z]$", nm):
+        if not nm or nm == "help" or nm in taken or nm.startswith("-") or nm.endswith("-"):
             continue
+        if not multibyte and not re.match(r"^[a-z][a-z-]*$", nm):
+            continue
+        return nm
+    return None
+
+
+def random_fields(rng):
+    r = rng.below(6)
+    if r == 1:
+        return [Field("val", "u8")]
+    if r == 2:
+        return [Field("text", "str", optional=True), Field("fast", "bool", kind="flag", short=True, long=True)]
+    if r == 3:
+        return [Field("level", "i32", kind="opt", short=True, long=True), Field("file", "str")]
+    if r == 4:
+        return [Field("a", "u16"), Field("b", "char", optional=True), Field("quiet", "bool", kind="flag", short=True)]
+    if r == 5:
+        return [Field("name", "str", kind="opt", long=True, default="dflt"), Field("ratio", "f32", optional=True)]
+    return []
+
+
+def random_enum(rng, ident, n, multibyte=False, enums=None, depth=0):
+    names = []
+    while len(names) < n:
+        nm = random_name(rng, names, multibyte and rng.below(2) == 0)
+        if nm is None:
+            break
         names.append(nm)
     cmds = []
     for i, nm in enumerate(names):
-        fields = []
-        r = rng.below(4)
-        if r == 1:
-            fields = [Field("val", "u8")]
-        elif r == 2:
-            fields = [Field("text", "str", optional=True), Field("fast", "bool", kind="flag", short=True, long=True)]
-        elif r == 3:
-            fields = [Field("level", "i32", kind="opt", short=True, long=True), Field("file", "str")]
-        cmds.append(Cmd(f"C{i}", fields, name=nm, doc=f"Command {nm}"))
-    return Enum(ident, cmds)
+        sub = None
+        if enums is not None and depth < 2 and rng.below(5) == 0:
+            sub_ident = f"{ident}Sub{i}"
+            enums[sub_ident] = random_enum(rng, sub_ident, 1 + rng.below(3), False, enums, depth + 1)
+            sub = sub_ident
+        if sub and rng.below(2) == 0:
+            cmds.append(Cmd(f"C{i}", name=nm, tuple_sub=sub, doc=f"Command {nm}"))
+        else:
+            fields = random_fields(rng)
+            if sub:
+                # the macro does not allow positionals next to a sub-command
+                fields = [f for f in fields if f.kind != "pos"]
+            cmds.append(Cmd(f"C{i}", fields, name=nm, doc=f"Command {nm}" if rng.below(3) else None, sub=sub))
+    return Enum(ident, cmds, title=f"Title {ident}" if rng.below(3) == 0 else None)
 
 
 def build_family(seed):
@@ -387,16 +417,46 @@ def build_family(seed):
         Cmd("Grin", name="e😀"),
         Cmd("Beam", name="e😁"),
     ])))
-    # 13..: random over a tiny syllable alphabet
+    # four groups, hidden one in the middle, a prefix split across three of them
+    add(Enum("S20A", [Cmd("Conf", [Field("k", "str", optional=True)], doc="Configure"), Cmd("Connect", [Field("port", "u16")])]))
+    add(Enum("S20B", [Cmd("Console"), Cmd("Copy", [Field("src", "str"), Field("dst", "str")])], title="Hidden tools"))
+    add(Enum("S20C", [Cmd("Count", [Field("n", "u8", optional=True)]), Cmd("Co")], title="Counting"))
+    add(Enum("S20D", [Cmd("Quit", doc="Leave")]))
+    tops.append(Group("S20", [("A", "S20A", False), ("B", "S20B", True), ("C", "S20C", False), ("D", "S20D", False)]))
+    # systematic prefix chains and many commands
+    tops.append(add(Enum("S21", [Cmd(f"P{i}", name=n, doc=f"chain {n}") for i, n in enumerate(
+        ["a", "ab", "abc", "abcd", "abcde", "b-x", "b-y", "b-xy", "c", "led1", "led10", "led2", "zz-top", "zz", "z"])])))
+    # long names
+    tops.append(add(Enum("S22", [
+        Cmd("ConfigureNetworkInterface", [Field("ifname", "str")], doc="Configure an interface"),
+        Cmd("ConfigureNetworkRoute", [Field("dest", "str"), Field("metric", "u8", optional=True)]),
+        Cmd("ConfigurationDump"),
+        Cmd("Con"),
+    ])))
+    # 13..: random over a tiny syllable alphabet (different for every family seed)
     n_random = 5
     for i in range(n_random):
         ident = f"S{13 + i}"
         n = [3, 5, 8, 12, 2][i % 5]
-        tops.append(add(random_enum(rng, ident, n)))
+        tops.append(add(random_enum(rng, ident, n, multibyte=(i == 2), enums=enums)))
     # one random group over two of the random enums
-    add(random_enum(rng, "S18A", 4))
-    add(random_enum(rng, "S18B", 4))
-    tops.append(Group("S18", [("A", "S18A", False), ("B", "S18B", False)]))
+    add(random_enum(rng, "S18A", 4, enums=enums))
+    add(random_enum(rng, "S18B", 4, enums=enums))
+    tops.append(Group("S18", [("A", "S18A", False), ("B", "S18B", rng.below(3) == 0)]))
+    if seed != 0:
+        # non-default families: more random structure (groups of 2-4 members with random hidden
+        # flags, multi-byte names, nested sub-commands)
+        for g in range(4):
+            members = []
+            for m in range(2 + rng.below(3)):
+                ident = f"R{g}M{m}"
+                add(random_enum(rng, ident, 1 + rng.below(5), multibyte=(rng.below(3) == 0), enums=enums))
+                members.append((f"V{m}", ident, rng.below(4) == 0))
+            if all(h for (_, _, h) in members):
+                members[0] = (members[0][0], members[0][1], False)
+            if rng.below(3) == 0:
+                members.append(("Other", "RawCommand", False))
+            tops.append(Group(f"R{g}", members))
     return enums, tops
 
 
